@@ -192,8 +192,12 @@ def respMon (m : Unit) (op : List String) (_ : List (List String)) (obs : Option
     let sts : Option (List Int) := match lists with
       | [b] => some (if b == "Blist:-" then [] else ((b.splitOn ":").drop 1).map fun s => (s.toInt?).getD (-1))
       | _ => none
+    -- events without a data object carry no index marker and show up as `?`; more `?` than such
+    -- events means that an empty-data event was handed on as well
+    let nNoData := (p.items.filter (· == .noData)).length
     let seenAt (i : Nat) (l : List String) : Bool :=
-      l.contains (toString i) || (p.items[i]? == some .noData && l.contains "?")
+      l.contains (toString i) || (p.items[i]? == some .noData && l.contains "?") ||
+      (p.items[i]? == some .emptyData && (l.filter (· == "?")).length > nNoData)
     -- (A) an error status for the request as a whole: nothing else written, nothing forwarded or buffered
     let fA := if isErr && (hs.length > 1 || bs.length > 1 || gs.length > 1 || !sunk.isEmpty) then
         [mkFail (pre ++ tag ++ "-continues")
